@@ -1635,10 +1635,12 @@ the receiver, nothing happens.
 func (r *stack) lock() {
 	if r.canMutex() {
 		if mutex, found := r.mutex(); found {
+			verifPoint("lock.want", r)
 			sc, _ := r.config()
 			_now := now()
 			sc.ldr = &_now
 			mutex.Lock()
+			verifPoint("lock.held", r)
 		}
 	}
 }
@@ -1654,6 +1656,7 @@ func (r *stack) unlock() {
 			mutex.Unlock()
 			sc, _ := r.config()
 			sc.ldr = nil
+			verifPoint("lock.released", r)
 		}
 	}
 }
